@@ -21,4 +21,4 @@ sed -i 's/struct.pack(">BH", block_address >> 16, block_address \& 0xFFFF)/struc
 "$here/check" C11 --tier quick > $base/log2 2>&1; rc2=$?
 echo "step 2: exit=$rc2 violation lines=$(grep -c '^VIOLATION' $base/log2) known-finding lines=$(grep -c '^KNOWN-FINDING' $base/log2)"
 [ $rc1 -eq 0 ] && [ "$n1" -ge 1 ] && [ $rc2 -eq 1 ] && echo PASS && exit 0
-echo FAIL; tail -5 $base/log1 $base/log2; exit 1
+echo FAIL; tail -n 5 $base/log1; tail -n 5 $base/log2; exit 1
